@@ -109,6 +109,88 @@ EXPLANATION = (
 LIMIT = c04.LIMIT
 
 
+# ---- fast text forms (valtext.canon / valtext.to_text / c04.has_overlimit_int recompute 10 ** 4000 for every integer)
+import struct as _struct
+_BIG = 10 ** 4000
+_OVER = 10 ** LIMIT if LIMIT else None
+_SINGLE = {type(None): "N", type(NotImplemented): "X", type(Ellipsis): "E"}
+
+
+def _int_text(v):
+    return str(v) if -_BIG < v < _BIG else valtext._bigstr(v)
+
+
+def canon(v):
+    """= valtext.canon"""
+    t = type(v)
+    if t in _SINGLE:
+        return _SINGLE[t]
+    if t is bool:
+        return "T" if v else "F"
+    if t is int:
+        return "I" + _int_text(v)
+    if t is float:
+        return "D" + _struct.pack("!d", v).hex()
+    if t is complex:
+        return "C" + _struct.pack("!d", v.real).hex() + ":" + _struct.pack("!d", v.imag).hex()
+    if t is bytes:
+        return "B" + v.hex()
+    if t is str:
+        return "S" + ",".join(map(str, map(ord, v)))
+    if t is tuple:
+        return "( " + "".join(canon(x) + " " for x in v) + ")"
+    if t is frozenset:
+        return "{ " + "".join(x + " " for x in sorted(canon(x) for x in v)) + "}"
+    if t is slice:
+        return "[ %s %s %s ]" % (canon(v.start), canon(v.stop), canon(v.step))
+    return "O:" + t.__name__
+
+
+def to_text(v):
+    """= valtext.to_text (frozensets in iteration order; refcodec.FSet in wire order)"""
+    out = []
+
+    def go(x):
+        t = type(x)
+        if t is int:
+            out.append("I" + _int_text(x))
+        elif t is tuple:
+            out.append("(")
+            for y in x:
+                go(y)
+            out.append(")")
+        elif t is frozenset or t is refcodec.FSet:
+            out.append("{")
+            for y in tuple(x):
+                go(y)
+            out.append("}")
+        elif t is slice:
+            out.append("[")
+            go(x.start)
+            go(x.stop)
+            go(x.step)
+            out.append("]")
+        elif t is bytes:
+            out.append("B" + x.hex())
+        elif t is str:
+            out.append("S" + ",".join(map(str, map(ord, x))))
+        else:
+            out.append(valtext.to_text(x))
+    go(v)
+    return " ".join(out)
+
+
+def has_overlimit_int(v):
+    t = type(v)
+    if t is int:
+        return _OVER is not None and (v >= _OVER or v <= -_OVER)
+    if t in (tuple, frozenset):
+        return any(has_overlimit_int(x) for x in v)
+    if t is slice:
+        return has_overlimit_int(v.start) or has_overlimit_int(v.stop) or has_overlimit_int(v.step)
+    return False
+
+
 def rp():
     import rpyc
     from rpyc.core import brine, channel, consts, protocol, stream
@@ -144,31 +226,7 @@ class RemoteRef:
 
 
 def to_text_ordered(v):
-    """valtext.to_text for values that carry refcodec.FSet (frozenset in wire order)"""
-    out = []
-
-    def go(x):
-        t = type(x)
-        if t is refcodec.FSet:
-            out.append("{")
-            for y in x:
-                go(y)
-            out.append("}")
-        elif t is tuple:
-            out.append("(")
-            for y in x:
-                go(y)
-            out.append(")")
-        elif t is slice:
-            out.append("[")
-            go(x.start)
-            go(x.stop)
-            go(x.step)
-            out.append("]")
-        else:
-            out.append(valtext.to_text(x))
-    go(v)
-    return " ".join(out)
+    return to_text(v)
 
 
 class Policy:
@@ -254,7 +312,7 @@ def ref_dump(v, choose=None):
 
 def in_published_domain(v):
     """values the published format can express and this interpreter can render"""
-    return refcodec.encodable(v) and not c04.has_overlimit_int(v)
+    return refcodec.encodable(v) and not has_overlimit_int(v)
 
 
 def value_stream(r, n):
@@ -286,7 +344,7 @@ def surrogate_text_judgement(v):
 def check_value_real(v, r):
     """direct oracle for one value on the real code and refcodec only; None or a description"""
     brine = rp()[1]
-    if c04.depth_of(v) > 200 or c04.has_overlimit_int(v):
+    if c04.depth_of(v) > 200 or has_overlimit_int(v):
         return None
     if has_surrogate(v) and brine.dumpable(v):
         return surrogate_text_judgement(v)
@@ -305,8 +363,8 @@ def check_value_real(v, r):
             back = brine.load(bs)
         except Exception as ex:  # noqa
             return "load(%s) raised %s; it is a legal (%s-form) encoding of v" % (bs.hex()[:120], valtext.err_name(ex), mode)
-        if valtext.canon(back) != valtext.canon(v):
-            return "load(%s) = %s, a legal (%s-form) encoding of v" % (bs.hex()[:120], valtext.canon(back)[:120], mode)
+        if canon(back) != canon(v):
+            return "load(%s) = %s, a legal (%s-form) encoding of v" % (bs.hex()[:120], canon(back)[:120], mode)
     return None
 
 
@@ -672,13 +730,13 @@ def conv_value(r, depth=2):
     """a value of the published domain, small enough for a conversation"""
     for _ in range(50):
         v = c04.gen_value(r, depth)
-        if in_published_domain(v) and c04.depth_of(v) < 20 and len(valtext.to_text(v)) < 20000:
+        if in_published_domain(v) and c04.depth_of(v) < 20 and len(to_text(v)) < 20000:
             return v
     return 0
 
 
 def same(a, b):
-    return valtext.canon(a) == valtext.canon(b)
+    return canon(a) == canon(b)
 
 
 def no_refs(b):
@@ -750,9 +808,9 @@ def run_client_conversation(seed, idx):
             ops.append((name, "raised " + type(ex).__name__))
             return None
         if raises is not None:
-            problems.append("%s: returned %s, expected %s" % (name, valtext.canon(got)[:80], raises[0]))
+            problems.append("%s: returned %s, expected %s" % (name, canon(got)[:80], raises[0]))
         elif expect is not None and not same(got, expect[0]):
-            problems.append("%s: got %s, expected %s" % (name, valtext.canon(got)[:120], valtext.canon(expect[0])[:120]))
+            problems.append("%s: got %s, expected %s" % (name, canon(got)[:120], canon(expect[0])[:120]))
         ops.append((name, "ok"))
         return got
 
@@ -1082,7 +1140,7 @@ def run_server_conversation(seed, idx):
             problems.append("%s: expected a reply, got %r" % (name, msg[:3]))
             return None
         if want is not None and not (no_refs(msg[2]) and same(R.unbox_plain(msg[2]), want[0])):
-            problems.append("%s: reply %s does not mean %s" % (name, valtext.canon(msg[2])[:120], valtext.canon(want[0])[:100]))
+            problems.append("%s: reply %s does not mean %s" % (name, canon(msg[2])[:120], canon(want[0])[:100]))
         return msg[2]
 
     def args_boxed(items):
@@ -1424,7 +1482,7 @@ def correspondence(ctx):
         add(line, "const", line, want, "const:" + line.split()[-1])
 
     # (a) values
-    n_vals = ctx.budget(3400, 30000)
+    n_vals = ctx.budget(4000, 30000)
     n_boundary = len(c04.boundary_values())
     forms_used = {}
     surrogate_cases = []
@@ -1432,14 +1490,14 @@ def correspondence(ctx):
         if c04.depth_of(v) > 200:
             c.count("value:not-judged:nested-deeper-than-200")
             continue
-        t = valtext.to_text(v)
+        t = to_text(v)
         real = impl_dump(v)
         if real == "skip":
             c.count("value:skipped-recursion")
             continue
         c.evaluations += 1
         sur = has_surrogate(v)
-        over = c04.has_overlimit_int(v)
+        over = has_overlimit_int(v)
         head = t.split(" ", 1)[0][:1]
         sig = "enc:%s:%d:%s" % (head, size_class(len(t)), real[:6] if real.startswith("ok") else real)
         if over:
@@ -1476,9 +1534,9 @@ def correspondence(ctx):
                 for k, n in pol.used.items():
                     forms_used[k] = forms_used.get(k, 0) + n
                 c.evaluations += 1
-                want = "ok " + valtext.canon(v)
+                want = "ok " + canon(v)
                 try:
-                    got = "ok " + valtext.canon(brine.load(bs))
+                    got = "ok " + canon(brine.load(bs))
                 except Exception as ex:  # noqa
                     got = "err " + valtext.err_name(ex)
                 c.count("load-of-%s-form:%s" % (mode, got.split(" ")[0] if got.startswith("ok") else got))
@@ -1575,7 +1633,7 @@ def correspondence(ctx):
         if probs:
             disagree("trailing-in-packet", kind, "; ".join(probs)[:400], "only the first message is acted on")
         # the model's load on the same payload: the first message, the rest ignored
-        add("brine dec " + payload.hex(), "dec-trailing", payload.hex(), "ok " + valtext.canon(refcodec.decode(m1)),
+        add("brine dec " + payload.hex(), "dec-trailing", payload.hex(), "ok " + canon(refcodec.decode(m1)),
             "dec-trailing:" + kind)
     c.extra["large_packet_compression_ratios"] = ratios
     if len(c.samples) < 12:
@@ -1623,9 +1681,9 @@ def correspondence(ctx):
                 add("spec msg " + t, "msg", t, "ok %s %s layout-ok" % (kind, data.hex()),
                     "msg:%s:%s:%d" % (kind, val[2][0] if kind == "request" else "-", size_class(len(data))))
             for h, boxed in res.get("replies", ()):
-                if len(valtext.to_text(boxed)) < 20000:
+                if len(to_text(boxed)) < 20000:
                     c.count("real-reply-shape:handler%d" % h)
-                    add("spec reply %d %s" % (h, valtext.to_text(boxed)), "reply-shape", "handler %d" % h, "ok layout-ok",
+                    add("spec reply %d %s" % (h, to_text(boxed)), "reply-shape", "handler %d" % h, "ok layout-ok",
                         "reply:%d:%s" % (h, boxed[0]))
             if len(c.samples) < 6 and idx == 3:
                 c.samples.append(dict(part="conversation", direction=direction, ops=res["ops"][:14],
@@ -1656,7 +1714,7 @@ def correspondence(ctx):
                 disagree(part, case, "published text rule must refuse", got)
             continue
         if part in ("dec", "dec-trailing") and got.startswith("ok "):
-            got = "ok " + valtext.canon(valtext.from_text(got[3:]))
+            got = "ok " + canon(valtext.from_text(got[3:]))
         if sig and case not in ("", "N"):
             c.signatures.add(sig)
         if got != want:
@@ -1706,7 +1764,7 @@ def oracle_search(ctx, corr, broken):
                else "value:load-raises" if " raised " in msg else "value:load-differs")
         if sig in known:
             return None
-        return dict(kind="input", part="value", value=valtext.to_text(v)[:4000], repr=repr(v)[:300]), msg, sig
+        return dict(kind="input", part="value", value=to_text(v)[:4000], repr=repr(v)[:300]), msg, sig
 
     def frame_failures():
         for n in FRAME_SIZES + [2000, 2500, 3500, 5000]:
